@@ -83,7 +83,7 @@ for _t in BOOLFAM + PREFIXFAM + LATTICEFAM + HISTFAM:
         TOKENS.append(_t)
 CORE = ["x", "on", "7", "-ab", "-bf", "-n7", "--agony", "--file=x", "--num",
         "-e", "--exec=x 7", "-t", "-z", "-v", "-ex"]     # 15 tokens for N=3 (quick); "-" and =WORD are in quick2 / the boolean family
-CORE4 = ["x", "on", "7", "-ab", "-bf", "-n7", "--agony", "--num", "-e", "-t", "-z", "-v"]   # 12 tokens for N=4 (thorough)
+CORE4 = ["x", "on", "-ab", "-bf", "-n7", "--agony", "--num", "-e", "-t", "-z", "-v"]   # 11 tokens for N=4 (thorough); "--num 7" is read at N<=3
 
 
 def codes(s):
